@@ -45,6 +45,16 @@ def main():
             print(name, check, 'OBSOLETE demo_with_change=%s caught=%s' % (res.get('demo_with_change'), res.get('caught')), flush=True)
         else:
             print(name, check, 'CAUGHT' if res.get('caught') else 'MISSED', out[name]['first'], flush=True)
+        # several invocations (one per property) may run side by side: merge under a lock
+        import fcntl
+        with open(path + '.lock', 'w') as lock:
+            fcntl.flock(lock, fcntl.LOCK_EX)
+            merged = json.load(open(path)) if os.path.exists(path) else {}
+            merged[name] = out[name]
+            with open(path, 'w') as handle:
+                json.dump(merged, handle, indent=1, sort_keys=True)
+                handle.write('\n')
+        continue
         with open(path, 'w') as handle:
             json.dump(out, handle, indent=1, sort_keys=True)
             handle.write('\n')
